@@ -463,6 +463,8 @@ func run(sc vlib.Scenario, cfg vsched.Config) (*vsched.Result, vlib.Verdict) {
 	if w.p.InFlight != "none" && reached {
 		if !w.inflDone {
 			v.Fail("C05.inflight", w.p.InFlight+"/never-returned", "the in-flight %s call never returned", w.p.InFlight)
+		} else if w.inflErr != nil && w.p.InFlight == "read" && (w.cuts > 1 || (len(w.Downs) > 0 && kit.ReportedClosed(w.Downs[0].Closed))) {
+			// the harness re-sends the chunk only once, and a downstream reported closed legitimately fails its reads
 		} else if w.inflErr != nil {
 			v.Fail("C05.inflight", w.p.InFlight+"/"+kit.ErrKind(w.inflErr), "the %s call interrupted by the failure returned %v instead of being sent again after recovery", w.p.InFlight, w.inflErr)
 		} else {
@@ -482,7 +484,7 @@ func run(sc vlib.Scenario, cfg vsched.Config) (*vsched.Result, vlib.Verdict) {
 					v.Fail("C05.inflight", "call/dropped", "SendCall returned nil but the broker never received call %q", w.callID)
 				}
 			case "read":
-				if w.readRes != "first" && w.readRes != "again" {
+				if w.readRes != "first" && w.readRes != "again" && w.cuts <= 1 {
 					v.Fail("C05.inflight", "read/wrong", "the pending read returned %q", w.readRes)
 				}
 			case "write":
